@@ -300,7 +300,7 @@ func refSegments(data any, segs []c09Segment) (any, error) {
 
 func c09Docs() []string {
 	return []string{
-		`{"a":{"b":{"x":1,"y":"7"},"x":"2.5"},"b":[[1,2],[3,4,5],[]],"x":[{"x":1,"y":"a","b":[1,2]},{"x":2,"b":[3]},null,{"y":"c","x":1}],"a.b":"lit","n":null,"s":"str"}`,
+		`{"a":{"b":{"x":1,"y":"7"},"x":"2.5"},"b":[[1,2],[3,4,5],[]],"x":[{"x":1,"y":"a","b":[1,2]},{"x":2,"b":[3]},null,{"y":"c","x":1}],"a.b":"lit","n":null,"s":"str","[0]":"bracket","{x}":{"x":9}}`,
 		`{"a":[{"b":[{"x":1},{"x":2}]},{"b":[{"x":3}]},{"b":[]}],"b":[[[1],[2,3]],[[4]]],"x":{"x":{"x":[1,2,3]}},"s":4}`,
 		`{"a":[1,[2,3],[[4]]],"b":[{"y":"1"},{"y":"zz"},{"y":2}],"x":[],"a.b":{"x":[true,false]}}`,
 	}
@@ -314,7 +314,7 @@ func c09Vocabulary() []c09Step {
 	d := func(keep bool, ds ...c09Dim) c09Step { return c09Step{kind: "dims", keep: keep, dims: ds} }
 	p := func(ps ...c09Pipe) c09Step { return c09Step{kind: "pipe", pipes: ps} }
 	return []c09Step{
-		k("a"), k("b"), k("x"), k("y"), k("zz"), {kind: "key", key: "a.b", quoted: true}, {kind: "key", key: "b", quoted: true},
+		k("a"), k("b"), k("x"), k("y"), k("zz"), {kind: "key", key: "a.b", quoted: true}, {kind: "key", key: "b", quoted: true}, {kind: "key", key: "[0]", quoted: true}, {kind: "key", key: "{x}", quoted: true},
 		d(false, idx(0)), d(false, idx(1)), d(false, idx(7)), d(false, each), d(false, each, idx(0)), d(false, each, each), d(false, idx(0), each),
 		d(true, each), d(true, each, each), d(true, each, idx(0)), d(true, idx(1)),
 		d(false, rng(0, 1)), d(false, rng(-1, -1)), d(false, rng(1, 9)), d(false, rng(2, 1)), d(false, rng(-1, 2), each), d(true, rng(1, -1), each), d(false, each, rng(0, 1)),
